@@ -44,10 +44,14 @@ rules were corrected to stay silent and C06 R10 written for what h06 really brea
 seventh round of 20 (ids iNN) prescribed the KIND OF MISTAKE instead - boundary / off-by-one,
 wrong neighbouring variable, falsy-value handling, clean-up missing on one way out, a wrong
 detail in a library call: 9 / 0 / 4 / 7 again (i01 and i12 are the same edit, made
-independently for two properties).  Every miss led to a rule (often one shared between
-properties whose statements overlap); all 121 are now caught by their target.  The first-pass rate did not improve between rounds: independently written
+independently for two properties).  An eighth round of 20 (ids jNN; kinds: stale value
+across a suspension, exception handling, sibling paths diverging, plumbing of an argument,
+defaults and precedence), run after the rules had been restated semantically (12.6, 12.7):
+14 / 1 / 3 / 2 - the exit 2 was C14 R4 losing its anchor on j04, rewritten since.  Every miss
+led to a rule (often one shared between properties whose statements overlap); all 141 are
+now caught by their target.  The first-pass rate did not improve between rounds: independently written
 breakages keep finding clauses no rule covered yet - the honest reading is that a new
-change has roughly an even chance of hitting an existing rule, and that the 121 stored
+change has roughly an even chance of hitting an existing rule, and that the 141 stored
 ones are regression tests, not a coverage measure.
 
 | id | property | change | needs, to manifest | caught by |
